@@ -122,10 +122,11 @@ type refOpts struct {
 	primaryLeast     bool // the least specific primary is chosen
 	stopRunsInner    bool // an :around that does not call call-next-method still lets the rest run
 	// history mutants (handled in model.call)
-	staleOnRemove  bool // effective-method memo not cleared by remove-method
-	staleOnNewKey  bool // memo cleared by defmethod only when the specialiser tuple already had an entry
-	staleDefault   bool // single-method fast path not recomputed by remove-method
-	staleOnReplace bool // redefining an existing method keeps serving the old body from the memo
+	staleOnRemove            bool // effective-method memo not cleared by remove-method
+	staleOnNewKey            bool // memo cleared by defmethod only when the specialiser tuple already had an entry
+	staleDefault             bool // single-method fast path not recomputed by remove-method
+	staleOnReplace           bool // redefining an existing method keeps serving the old body from the memo
+	removeKeepsUnspecialised bool // remove-method is a no-op when the tuple was first defined with an unspecialised parameter
 }
 
 // expectation kinds
@@ -320,6 +321,8 @@ type model struct {
 	memo               map[string]expect
 	deflt              *expect
 	callsSinceMutation int
+	firstSrc           map[string]string // specialiser tuple -> tuple as written by the defmethod that created the entry
+	gone               map[string]string // tag of a body no longer in the table -> "removed" | "replaced"
 }
 
 type version struct {
@@ -355,7 +358,9 @@ func (m *model) apply(o op) bool {
 		if e == nil {
 			e = &entry{}
 			m.t[key] = e
-			m.firstSrc[key] = o.spec
+			if !unspecialised(m.firstSrc[key]) {
+				m.firstSrc[key] = o.spec
+			}
 		}
 		if replaced {
 			m.gone[e[slot].tag(key)] = "replaced"
@@ -381,10 +386,18 @@ func (m *model) apply(o op) bool {
 			return true
 		}
 		m.gone[e[slot].tag(key)] = "removed"
+		if unspecialised(m.firstSrc[key]) {
+			m.gone[e[slot].tag(key)] = "removed-u"
+		}
 		e[slot] = nil
 		if *e == (entry{}) {
 			delete(m.t, key)
-			delete(m.firstSrc, key)
+			// firstSrc is kept when it was unspecialised: it is only used to
+			// attribute later failures to that trigger (signature text), never
+			// to decide what is expected
+			if !unspecialised(m.firstSrc[key]) {
+				delete(m.firstSrc, key)
+			}
 		}
 		m.versions = append(m.versions, version{t: m.t.clone(), what: "remove-method"})
 		if !m.opts.staleOnRemove {
